@@ -139,7 +139,7 @@ def gen_keycodes(repo):
         cmap[k] = int(v, 0)
     hdr = read(f"{repo}/include/riti.h")
     hdefs = re.findall(r'#define (VC_\w+) (0x[0-9A-Fa-f]+|\d+)\s', hdr)
-    body = fn_body(src, r'fn keycode_to_char\(key: u16\) -> char', item)
+    body = fn_body(src, r'fn keycode_to_char\(key: u16\) -> (?:char|Option<char>)', item)
     body = fn_body(body, r'match key', item)
     arms = []
     fallback = None
@@ -155,16 +155,16 @@ def gen_keycodes(repo):
     m = re.fullmatch(r'_\s*=>\s*(.*?),?', rest, re.S)
     if not m: raise Fail(item, f"unrecognised arm at {rest[:50]!r}")
     fallback = m.group(1).strip()
-    if fallback is None or not fallback.startswith("panic!"):
-        fb = "other"
-    else:
-        fb = "panic"
+    if fallback.startswith("panic!"): fb = "panic"
+    elif fallback in ("return None", "None"): fb = "none"
+    else: raise Fail(item, f"unrecognised catch-all arm {fallback!r}")
     # first-match semantics: keep only first occurrence of a code
     seen = set(); rows = []
     for k, ch in arms:
         code = cmap[k]
         if code in seen: continue
         seen.add(code); rows.append((code, ord(ch)))
+    rows.sort()   # keys are distinct after first-match de-duplication, so order is immaterial
     L = []
     L.append("/- GENERATED by tools/translate.py from src/keycodes.rs and include/riti.h — do not edit -/")
     L.append("namespace Riti.Gen")
@@ -223,6 +223,7 @@ def gen_layoutkeys(repo, kc):
         if code in seen: continue
         seen.add(code); rows.append((code, name, num))
     if catchall != "None": raise Fail(item, f"catch-all arm is {catchall!r}, expected None")
+    rows.sort(key=lambda r: r[0])   # keys are distinct after first-match de-duplication
     # the two accessor helpers
     gv = fn_body(src, r'fn layout_get_value\([^{]*\{', item)
     if not re.search(r'format!\("Key_\{\}_\{\}", key, modifier\)', gv) or ".filter(|s| !s.is_empty())" not in gv:
